@@ -160,6 +160,43 @@ func (o *Oracle) tick(idx int, res string, pre, post *Dump, db sm.IStateMachine)
 		if _, p := LookupRequests(db, "a1"); !p {
 			o.fail("C09", "failstop_refuses_queries", "requests-query-after-failstop", "a requests query was answered after the fail-stop", idx)
 		}
+		// every other kind of query, with the shapes the service sends them in
+		known := []uint64{}
+		for sid := range pre.ShardImage.Shards {
+			known = append(known, sid)
+		}
+		sort.Slice(known, func(i, j int) bool { return known[i] < known[j] })
+		for name, q := range map[string]func() bool{
+			"kv":                  func() bool { _, p := LookupKV(db, "launched-flag"); return p },
+			"kv-absent":           func() bool { _, p := LookupKV(db, "no-such-key"); return p },
+			"scheduler-context":   func() bool { _, p := LookupContext(db); return p },
+			"shard-states-known":  func() bool { _, p := LookupStates(db, known); return p },
+			"shard-states-empty":  func() bool { _, p := LookupStates(db, []uint64{}); return p },
+			"shard-states-absent": func() bool { _, p := LookupStates(db, []uint64{987654321}); return p },
+			"requests-other-host": func() bool { _, p := LookupRequests(db, "no-such-host"); return p },
+		} {
+			o.Run.Count("c09:query_after_failstop_checked")
+			if !q() {
+				o.fail("C09", "failstop_refuses_queries", "query-after-failstop:"+name, "a "+name+" query was answered after the fail-stop", idx)
+			}
+		}
+		// and every other kind of update
+		for name, u := range map[string]*Op{
+			"report":     {Op: "report", Addr: "a1"},
+			"definition": {Op: "shard", ID: 99, Members: []uint64{1, 2, 3}, App: "app"},
+			"requests":   {Op: "reqs"},
+		} {
+			func() {
+				defer func() { recover() }()
+				up := u.ToUpdate()
+				if up == nil {
+					return
+				}
+				if r := Apply(db, up); r != "panic" {
+					o.fail("C09", "failstop_refuses_updates", "update-after-failstop:"+name, "a "+name+" update was accepted after the fail-stop", idx)
+				}
+			}()
+		}
 		if _, p := Snapshot(db); !p {
 			o.fail("C09", "failstop_refuses_snapshots", "snapshot-after-failstop", "a snapshot was produced after the fail-stop", idx)
 		}
@@ -393,6 +430,19 @@ func (o *Oracle) report(idx int, op Op, res string, pre, post *Dump) {
 		o.Run.Count("c12:host_log_record_checked")
 		if !same {
 			o.fail("C12", "restore_needs_log", "host-log-record", fmt.Sprintf("after the report of %s Drummer's record of its persisted logs is %v, the host's last list was %v", a, got, o.hostLog[a]), idx)
+		}
+	}
+	// C08 / C02 "a NodeHost that does not already host the shard": the shards Drummer records for a host include every
+	// shard the host listed in the report just applied (placement filters on this record)
+	if h := post.NodeHostImage.Nodehosts[a]; h != nil {
+		o.Run.Count("c08:host_shard_record_checked")
+		for _, sid := range op.IDs {
+			if _, ok := h.Shards[sid]; !ok {
+				why := fmt.Sprintf("%s just reported that it hosts shard %d; Drummer's record of the shards on that host is %v: placement would treat the host as free for shard %d", a, sid, sortedU(h.Shards), sid)
+				o.fail("C08", "plan_valid", "hosted-shard-not-recorded", why, idx)
+				o.fail("C02", "no_colocation", "hosted-shard-not-recorded", why, idx)
+				break
+			}
 		}
 	}
 	// C04: the view is the membership of the complete entry with the highest version so far
